@@ -76,15 +76,14 @@ impl Substance {
                         .expect("Non-zero property")
                 })
         } else {
+            // output * (amount / input) rather than output / (input / amount):
+            // an amount of zero is not a division by zero.
             for prop in self.properties.properties.values() {
                 if name == prop.output_name {
-                    let input = (&prop.input / &self.amount)
+                    let amount = (&self.amount / &prop.input)
                         .ok_or_else(|| SubstanceGetError::Generic("Division by zero".to_owned()))?;
-                    if input.dimless() {
-                        let res = (&prop.output / &input).ok_or_else(|| {
-                            SubstanceGetError::Generic("Division by zero".to_owned())
-                        })?;
-                        return Ok(res);
+                    if amount.dimless() {
+                        return Ok((&prop.output * &amount).unwrap());
                     } else {
                         return Err(SubstanceGetError::Conformance(
                             self.amount.clone(),
@@ -92,13 +91,10 @@ impl Substance {
                         ));
                     }
                 } else if name == prop.input_name {
-                    let output = (&prop.output / &self.amount)
+                    let amount = (&self.amount / &prop.output)
                         .ok_or_else(|| SubstanceGetError::Generic("Division by zero".to_owned()))?;
-                    if output.dimless() {
-                        let res = (&prop.input / &output).ok_or_else(|| {
-                            SubstanceGetError::Generic("Division by zero".to_owned())
-                        })?;
-                        return Ok(res);
+                    if amount.dimless() {
+                        return Ok((&prop.input * &amount).unwrap());
                     } else {
                         return Err(SubstanceGetError::Conformance(
                             self.amount.clone(),
